@@ -165,7 +165,16 @@ SENSITIVITY = [
     "FakedWBEMConnection.remove_namespace deleting the contexts of the "
     "namespace before MainProvider.remove_namespace refuses the removal -> "
     "session-disturbed-by:remove_namespace-refused:context-lost",
-    "@@MUTANTS@@",
+    "CloseEnumeration: _validate_pull_operations_enabled only after the "
+    "context was deleted -> session-disturbed-by:CloseEnumeration-while-"
+    "pull-operations-disabled:context-lost",
+    "PullInstancePaths: _pull_response before "
+    "_validate_pull_operations_enabled -> session-disturbed-by:Pull-while-"
+    "pull-operations-disabled:objects-consumed, ...:context-lost",
+    "FakedWBEMConnection.add_namespace clearing enumeration_contexts -> "
+    "session-disturbed-by:add_namespace-refused:context-lost, "
+    "session-disturbed-by:add+remove_namespace-of-another-namespace:"
+    "context-lost, session-disturbed-by:add_namespace:context-lost",
     "NOT caught, by design: _open_response '<' instead of '<=' only delays "
     "eos to a final empty pull, which the statement allows",
 ]
